@@ -67,13 +67,55 @@ Definition entries_view (sh : shape) (supers subs : list view) (rw : row) : opti
   | None => None
   end.
 
+(** The filter [And<Filter, SubViews>] as [query/view/contains/filter.rs] decides it: every item is looked up
+    against the entry view of its component; what happens then is the regenerated [sub_filter_table].
+    [None]: no impl for that item over those entry views (the program does not compile). *)
+Definition item_filter (supers : list view) (sh : shape) (it : fitem) (c : nat) : option bool :=
+  match sub_filter_table it (kind_of c supers) with
+  | Some true => Some (get_bit c sh)
+  | Some false => Some true
+  | None => None
+  end.
+Definition item_of_kind (k : vkind) : fitem :=
+  match k with KRef => IRef | KMut => IMut | KOptRef => IOptRef | KOptMut => IOptMut end.
+Definition opt_and (a b : option bool) : option bool :=
+  match a, b with Some x, Some y => Some (x && y) | _, _ => None end.
+Definition opt_or (a b : option bool) : option bool :=
+  match a, b with Some x, Some y => Some (x || y) | _, _ => None end.
+Fixpoint efilter (supers : list view) (sh : shape) (f : qfilter) : option bool :=
+  match f with
+  | FNone => Some true
+  | FHas c => item_filter supers sh IHas c
+  | FNot g => option_map negb (efilter supers sh g)
+  | FAnd g h => opt_and (efilter supers sh g) (efilter supers sh h)
+  | FOr g h => opt_or (efilter supers sh g) (efilter supers sh h)
+  | FViews vs =>
+      fold_right (fun v acc => opt_and (match v with
+                                        | VComp k c => item_filter supers sh (item_of_kind k) c
+                                        | VIdent => Some true
+                                        end) acc) (Some true) vs
+  end.
+
+(** every [Has<C>] of the filter names a component some entry view covers *)
+Fixpoint filter_covered (supers : list view) (f : qfilter) : Prop :=
+  match f with
+  | FNone => True
+  | FHas c => kind_of c supers <> None
+  | FNot g => filter_covered supers g
+  | FAnd g h | FOr g h => filter_covered supers g /\ filter_covered supers h
+  | FViews _ => False      (* the user's filter never contains the internal views-as-filter node *)
+  end.
+
 (** [query::entries::Entry::query]: the filter is [And<Filter, SubViews>] on the entity's archetype *)
 Definition entries_entry_query (w : world) (e : eid) (supers subs : list view) (f : qfilter)
   : option (option (list qitem)) :=
   match get_loc w e with
   | None => Some None
   | Some (sh, r) =>
-      if filter_eval (query_filter subs f) sh then
+      match efilter supers sh (FAnd f (FViews subs)) with
+      | None => None
+      | Some false => Some None
+      | Some true =>
         match find_arch sh (w_archs w) with
         | Some a => match nth_error (a_rows a) r with
                     | Some rw => match entries_view sh supers subs rw with Some x => Some (Some x) | None => None end
@@ -81,7 +123,7 @@ Definition entries_entry_query (w : world) (e : eid) (supers subs : list view) (
                     end
         | None => None
         end
-      else Some None
+      end
   end.
 
 (** the sub-views are a subset the type system accepts: an impl exists for every pair *)
